@@ -2012,6 +2012,35 @@ func (m *repoManager) invalidateAncestors(kvv kvVersions, v dvid.VersionID) erro
 	return nil
 }
 
+// invalidateSuperseded walks the ancestry of v and, for every version that holds a k/v,
+// invalidates the k/v held by that version's ancestors.
+func (m *repoManager) invalidateSuperseded(kvv kvVersions, v dvid.VersionID) error {
+	visited := make(map[dvid.VersionID]struct{})
+	var walk func(cur dvid.VersionID) error
+	walk = func(cur dvid.VersionID) error {
+		if _, seen := visited[cur]; seen {
+			return nil
+		}
+		visited[cur] = struct{}{}
+		if _, found := kvv[cur]; found {
+			if err := m.invalidateAncestors(kvv, cur); err != nil {
+				return err
+			}
+		}
+		parents, err := m.getParentsByVersion(cur)
+		if err != nil {
+			return err
+		}
+		for _, parent := range parents {
+			if err := walk(parent); err != nil {
+				return err
+			}
+		}
+		return nil
+	}
+	return walk(v)
+}
+
 // generate ancestor path from current version to root.
 func (m *repoManager) getAncestry(v dvid.VersionID) ([]dvid.VersionID, error) {
 	ancestors := []dvid.VersionID{v}
